@@ -496,8 +496,439 @@ def c19_tasks():
     return out
 
 
+# ================================================================================================ C15
+CHAN = {"EMG": dict(map="_emgMap", items="_signals", item="EMGTrack", add="addSignal", needN=True),
+        "PlatformsCalibration": dict(map="_platformMap", items="_platforms", item="PlatformInfo", add="add_platform", needN=False),
+        "PlatformsData": dict(map="_plat_map", items="_platforms", item="PlatformData", add="add_platform", needN=True)}
+
+
+def _item_index(ctx, lst_key, e):
+    """index term k such that element e is the original item k of the list with this key (or None)"""
+    e = _resolve(ctx, e)
+    if isinstance(e, VObj) and hasattr(e, "key") and e.key[0] == lst_key[0] and len(e.key) == len(lst_key) + 1:
+        return e.key[-1]
+    return None
+
+
+def _pairs_goals(interp, tag, o, cfg, n0, old_map, old_key, new_len, map_src, item_src, new_item=None, new_chan=None):
+    """obligations describing the (channel, item) pairs after an operation.
+    map_src(k) / item_src(k): expected ORIGINAL index of the pair now at position k (None = the new pair)"""
+    ctx = interp.ctx
+    mp, items = o.fields[cfg["map"]], o.fields[cfg["items"]]
+    ctx.oblige(f"{tag}.channel_list_is_a_list", isinstance(mp, VList), kind="C15")
+    ctx.oblige(f"{tag}.channel_list_length", eq(mp.length, new_len), kind="C15")
+    ctx.oblige(f"{tag}.item_list_length", eq(items.length, new_len), kind="C15")
+    k = ctx.fresh_const("pair")
+    ctx.solver.push()
+    ctx.solver.add(zbool(rng(0, k, new_len)), zbool(eq(mp.length, new_len)), zbool(eq(items.length, new_len)))
+    try:
+        src = map_src(k)
+        got_ch = mp.elem(k)
+        got_item = _resolve(ctx, items.elem(k)) if not isinstance(items.elem(k), MixedElem) else items.elem(k)
+    finally:
+        ctx.solver.pop()
+    isnew = src[0]          # Bool: position k holds the new pair
+    orig = src[1]           # original index otherwise
+    ctx.oblige(f"{tag}.surviving_channels_unchanged", Implies(And(rng(0, k, new_len), Not(isnew)), eq(npmodel.as_int(interp, got_ch), old_map(orig))), kind="C15")
+    if new_chan is not None:
+        ctx.oblige(f"{tag}.new_channel_at_its_position", Implies(And(rng(0, k, new_len), isnew), eq(npmodel.as_int(interp, got_ch), new_chan)), kind="C15")
+    # items: identity by key
+    def item_goal(e):
+        if isinstance(e, MixedElem):
+            return If(e.c, item_goal(e.x), item_goal(e.y))
+        if new_item is not None and e is new_item:
+            return isnew
+        idx = _item_index(ctx, old_key, e)
+        if idx is None:
+            return False
+        return And(Not(isnew), eq(idx, orig))
+    ctx.oblige(f"{tag}.surviving_items_keep_their_channel_position", Implies(rng(0, k, new_len), item_goal(got_item)), kind="C15")
+    i, j = ctx.fresh_const("ci"), ctx.fresh_const("cj")
+    ctx.oblige(f"{tag}.channels_unique", Implies(And(0 <= i, i < j, j < zint(new_len)), Not(eq(npmodel.as_int(interp, mp.elem(i)), npmodel.as_int(interp, mp.elem(j))))), kind="C15")
+
+
+def c15_tasks():
+    out = []
+    for name, cfg in CHAN.items():
+        for mode in ("auto", "explicit"):
+            def t_add(interp, name=name, cfg=cfg, mode=mode):
+                ctx = interp.ctx
+                sp, o = _setup(interp, name, SPECS[name].variants[0])
+                mp, items = o.fields[cfg["map"]], o.fields[cfg["items"]]
+                n0 = mp.length
+                old_map = mp.at
+                old_key = items.key
+                N = o.fields.get("nSamples", o.fields.get("n_frames"))
+                kw = dict(N=N) if cfg["needN"] else {}
+                x = SPECS[cfg["item"]].make(interp, "newitem", (), [], **kw)
+                ch = None if mode == "auto" else z3.Const("new_channel", I)
+                f = _method(interp, name, cfg["add"])
+                interp.inline_only.add(f.qualname)
+                w0 = len(interp.writes)
+                oc = _outcome(interp, lambda: interp.call(f, [o, x, ch], {}))
+                j = ctx.fresh_const("m")
+                taken = z3.Exists([j], z3.And(0 <= j, j < zint(n0), old_map(j) == ch)) if ch is not None else False
+                tag = f"C15.{name}.add[{mode}]"
+                if oc[0] == "raise":
+                    ctx.oblige(f"{tag}.refused_only_if_explicit_channel_taken({oc[1].cls.name})", And(taken, oc[1].cls.is_subclass(EXC["ValueError"])), kind="C15")
+                    _no_writes(interp, tag + ".refused", w0)
+                    return
+                ctx.oblige(f"{tag}.taken_channel_is_refused", Not(taken), kind="C15")
+                newch = npmodel.as_int(interp, o.fields[cfg["map"]].elem(n0)) if isinstance(o.fields[cfg["map"]], VList) else None
+                if ch is None and newch is not None:
+                    ctx.oblige(f"{tag}.automatic_channel_not_in_use", Implies(rng(0, j, n0), Not(eq(old_map(j), newch))), kind="C15")
+                _pairs_goals(interp, tag, o, cfg, n0, old_map, old_key, n0 + 1, lambda k: (eq(zint(k), zint(n0)), k), None, new_item=x, new_chan=ch if ch is not None else newch)
+            out.append(Task(f"C15.{name}.add[{mode}]", SPECS[name].cls + "." + cfg["add"], ["C15"], t_add, kind="obj"))
+
+    def t_remove_signal(interp):
+        ctx = interp.ctx
+        name, cfg = "EMG", CHAN["EMG"]
+        sp, o = _setup(interp, name, None)
+        mp, items = o.fields[cfg["map"]], o.fields[cfg["items"]]
+        n0, old_map, old_key, old_at = mp.length, mp.at, items.key, items.at
+        lab = sym_text(ctx, "rmlabel")
+        f = _method(interp, name, "removeSignal")
+        interp.inline_only.add(f.qualname)
+        w0 = len(interp.writes)
+        oc = _outcome(interp, lambda: interp.call(f, [o, lab], {}))
+        has = lambda k: interp.str_eq(old_at(k).fields["label"], lab)
+        j = ctx.fresh_const("m")
+        tag = "C15.EMG.removeSignal"
+        if oc[0] == "raise":
+            ctx.oblige(f"{tag}.KeyError_only_if_no_signal_has_the_label({oc[1].cls.name})", And(oc[1].cls.is_subclass(EXC["KeyError"]), Implies(rng(0, j, n0), Not(has(j)))), kind="C15")
+            _no_writes(interp, tag + ".refused", w0)
+            return
+        p = ctx.fresh_int("removed_pos")
+        # the removed position is the first with that label: define it by its property and check the result against it
+        ctx.assume(And(rng(0, p, n0), has(p), z3.ForAll([j], z3.Implies(z3.And(0 <= j, j < p), z3.Not(zbool(has(j)))))))
+        _pairs_goals(interp, tag, o, cfg, n0, old_map, old_key, n0 - 1, lambda k: (False, If(zint(k) < p, zint(k), zint(k) + 1)), None)
+    out.append(Task("C15.EMG.removeSignal", "basictdf.tdfEMG.EMG.removeSignal", ["C15"], t_remove_signal, kind="obj"))
+
+    def t_remove_index(interp):
+        ctx = interp.ctx
+        name, cfg = "PlatformsCalibration", CHAN["PlatformsCalibration"]
+        sp, o = _setup(interp, name, None)
+        mp, items = o.fields[cfg["map"]], o.fields[cfg["items"]]
+        n0, old_map, old_key = mp.length, mp.at, items.key
+        idx = z3.Const("rm_index", I)
+        f = _method(interp, name, "remove_platform")
+        interp.inline_only.add(f.qualname)
+        w0 = len(interp.writes)
+        oc = _outcome(interp, lambda: interp.call(f, [o, idx], {}))
+        tag = "C15.PlatformsCalibration.remove_platform[index]"
+        inr = And(idx >= -zint(n0), idx < zint(n0))
+        if oc[0] == "raise":
+            ctx.oblige(f"{tag}.refused_only_out_of_range({oc[1].cls.name})", Not(inr), kind="C15")
+            _no_writes(interp, tag + ".refused", w0)
+            return
+        ctx.oblige(f"{tag}.in_range_when_removing", inr, kind="C15")
+        p = If(idx < 0, idx + zint(n0), idx)
+        _pairs_goals(interp, tag, o, cfg, n0, old_map, old_key, n0 - 1, lambda k: (False, If(zint(k) < p, zint(k), zint(k) + 1)), None)
+    out.append(Task("C15.PlatformsCalibration.remove_platform[index]", "basictdf.tdfForcePlatformsCalibration.ForcePlatformsCalibrationDataBlock.remove_platform", ["C15"], t_remove_index, kind="obj"))
+
+    def t_ctor_platforms(interp):
+        ctx = interp.ctx
+        name, cfg = "PlatformsCalibration", CHAN["PlatformsCalibration"]
+        cls = SPECS[name].klass(interp)
+        init, _ = cls.lookup("__init__")
+        interp.inline_only.add(init.qualname)
+        ctx.epoch += 1
+        its = [SPECS["PlatformInfo"].make(interp, f"given{i}", (), []) for i in range(3)]
+        given = VList(list(its), epoch=ctx.epoch)
+        o = interp.instantiate(cls, [], {"platforms": given})
+        mp, items = o.fields[cfg["map"]], o.fields[cfg["items"]]
+        tag = "C15.PlatformsCalibration.constructor[platforms=3]"
+        ok = isinstance(mp, VList) and mp.items is not None and isinstance(items, VList) and items.items is not None
+        ctx.oblige(f"{tag}.lists_built", ok, kind="C15")
+        if ok:
+            ctx.oblige(f"{tag}.same_length", len(mp.items) == 3 and len(items.items) == 3, kind="C15")
+            ctx.oblige(f"{tag}.items_in_order", all(a is b for a, b in zip(items.items, its)), kind="C15")
+            chs = [npmodel.as_int(interp, c) for c in mp.items]
+            ctx.oblige(f"{tag}.channels_unique", And(*[Not(eq(chs[i], chs[j])) for i in range(len(chs)) for j in range(i + 1, len(chs))]), kind="C15")
+    out.append(Task("C15.PlatformsCalibration.constructor", "basictdf.tdfForcePlatformsCalibration.ForcePlatformsCalibrationDataBlock.__init__", ["C15"], t_ctor_platforms, kind="obj"))
+
+    def t_pd_assign(interp):
+        """ForcePlatformsDataBlock.platforms = values: installs exactly the values with fresh unique channels, or restores both lists"""
+        ctx = interp.ctx
+        name, cfg = "PlatformsData", CHAN["PlatformsData"]
+        sp, o = _setup(interp, name, None)
+        old_map, old_items = o.fields[cfg["map"]], o.fields[cfg["items"]]
+        st_map, st_items = (old_map.items, old_map.n, old_map.at), (old_items.items, old_items.n, old_items.at)
+        N = o.fields["n_frames"]
+        is_plat = [z3.Const(f"is_platform{i}", B) for i in range(2)]
+        vals = []
+        for i in range(2):
+            x = SPECS["PlatformData"].make(interp, f"val{i}", (), [], N=N)
+            x.__class__ = DynTrack
+            klass = SPECS["PlatformData"].klass(interp)
+            x.dyn_isinstance = (lambda cls, i=i, klass=klass: is_plat[i] if cls is klass else None)
+            vals.append(x)
+        ctx.epoch += 1
+        given = VList(list(vals), epoch=ctx.epoch)
+        prop, _ = SPECS[name].klass(interp).lookup("platforms")
+        f = prop.fset
+        interp.inline_only.add(f.qualname)
+        oc = _outcome(interp, lambda: interp.call(f, [o, given], {}))
+        tag = "C15.PlatformsData.platforms_setter"
+        allok = And(*is_plat)
+        mp, items = o.fields[cfg["map"]], o.fields[cfg["items"]]
+        if oc[0] == "raise":
+            ctx.oblige(f"{tag}.refused_only_if_some_value_is_not_a_platform", Not(allok), kind="C15")
+            ctx.oblige(f"{tag}.rollback_restores_both_lists", mp is old_map and items is old_items, kind="C15")
+            ctx.oblige(f"{tag}.rollback_lists_untouched", (old_map.items, old_map.n, old_map.at) == st_map and (old_items.items, old_items.n, old_items.at) == st_items, kind="C15")
+        else:
+            ctx.oblige(f"{tag}.accepted_only_if_all_values_are_platforms", allok, kind="C15")
+            ok = isinstance(mp, VList) and mp.items is not None and isinstance(items, VList) and items.items is not None
+            ctx.oblige(f"{tag}.lists_built", ok, kind="C15")
+            if ok:
+                ctx.oblige(f"{tag}.same_length", len(mp.items) == 2 and len(items.items) == 2, kind="C15")
+                ctx.oblige(f"{tag}.items_in_order", all(a is b for a, b in zip(items.items, vals)), kind="C15")
+                chs = [npmodel.as_int(interp, c) for c in mp.items]
+                ctx.oblige(f"{tag}.channels_unique", Not(eq(chs[0], chs[1])) if len(chs) == 2 else False, kind="C15")
+                ctx.oblige(f"{tag}.fresh_lists", mp is not old_map and items is not old_items and items is not given, kind="C15")
+    out.append(Task("C15.PlatformsData.platforms_setter", "basictdf.tdfForcePlatformsData.ForcePlatformsDataBlock.platforms.setter", ["C15"], t_pd_assign, kind="obj"))
+    return out
+
+
+# ================================================================================================ C14
+EQ_BLOCKS = ["EMG", "Events", "PlatformsData", "PlatformsCalibration", "Calibration", "Data3D", "ForceTorque3D", "OpticalSetup"]
+EQ_ITEMS = ["EMGTrack", "Event", "PlatformData", "PlatformInfo", "SeelabCamera", "BTSCamera", "Viewport", "OpticalChannel"]
+LIST_FIELDS = {"EMG": ("_signals", "_emgMap"), "Events": ("events", None), "PlatformsData": ("_platforms", "_plat_map"),
+               "PlatformsCalibration": ("_platforms", "_platformMap"), "Calibration": ("cam_data", "cameras_calibration_map"),
+               "Data3D": ("_tracks", None), "ForceTorque3D": ("_tracks", None), "OpticalSetup": ("channels", None)}
+SCALAR_FIELDS = {"EMG": ["frequency", "nSamples"], "Events": [], "PlatformsData": ["frequency", "n_frames"], "PlatformsCalibration": [],
+                 "Calibration": [], "Data3D": ["frequency", "nFrames"], "ForceTorque3D": ["frequency", "nFrames"], "OpticalSetup": []}
+
+
+def _block_write_contract(interp, fn, args, kw):
+    """Block._write appends enc_T(self) -- W_T, proved by the codec engine; used here as the callee contract of the
+    byte-comparing __eq__ methods"""
+    from .symlayout import layout_atoms
+    from .codec import _file_write
+    self_ = args[0]
+    name = getattr(self_, "layout", None)
+    if name is None:
+        raise OutOfReach("_write of an object that is not a layout instance")
+    _file_write(interp, args[1], layout_atoms(interp.ctx, name, SPECS[name].view(self_)))
+    return None
+
+
+def _eq_setup(interp, name, variant):
+    from .codec import CONTRACTS as CC
+    sp, a = _setup(interp, name, variant)
+    b = decoded(interp, name, a)
+    b.decoded = False
+    f = _method(interp, name, "__eq__")
+    return sp, a, b, f
+
+
+def _eval_eq(interp, tag, x, y):
+    """value of x == y as a boolean term (None if it raised)"""
+    from .loops import Pure
+
+    def go():
+        with Pure(interp.ctx):          # the whole comparison as one boolean term: no forking on its conjuncts
+            return interp.equals(x, y)
+    oc = _outcome(interp, go)
+    if oc[0] == "raise":
+        interp.ctx.oblige(f"{tag}.comparison_raises({oc[1].cls.name})", False, kind="C14")
+        return None
+    return interp.truth_term(oc[1])
+
+
+def c14_tasks():
+    out = []
+    for name in EQ_BLOCKS + EQ_ITEMS:
+        for variant in SPECS[name].variants:
+            if (name == "Data3D" and variant == "byTrack-nolinks-attr") or (name == "BTSCamera" and variant == "short"):
+                continue
+            vt = f"[{variant}]" if variant else ""
+
+            def t_equal(interp, name=name, variant=variant, vt=vt):
+                """a == a, a == decode(encode(a)) and the converse hold (also with gaps)"""
+                ctx = interp.ctx
+                if name in ("Data3D", "ForceTorque3D", "OpticalSetup"):
+                    interp.contracts = dict(interp.contracts)
+                    interp.contracts[SPECS[name].cls + "._write"] = _block_write_contract
+                sp, a, b, f = _eq_setup(interp, name, variant)
+                if f is None:
+                    ctx.oblige(f"C14.{name}{vt}.has_value_equality", False, kind="C14")
+                    return
+                for desc, x, y in (("self", a, a), ("decoded", a, b), ("decoded_converse", b, a)):
+                    r = _eval_eq(interp, f"C14.{name}{vt}.{desc}", x, y) if not (x is y and isinstance(f, FuncModel) is False) else True
+                    if r is not None:
+                        ctx.oblige(f"C14.{name}{vt}.equal_to_{desc}", r, kind="C14")
+            out.append(Task(f"C14.{name}{vt}.equal_content_compares_equal", SPECS[name].cls + ".__eq__", ["C14"], t_equal, kind="obj"))
+    # blocks that differ in exactly one respect compare unequal
+    for name in EQ_BLOCKS:
+        for variant in SPECS[name].variants:
+            if name == "Data3D" and variant == "byTrack-nolinks-attr":
+                continue
+            vt = f"[{variant}]" if variant else ""
+            lst, mp = LIST_FIELDS[name]
+
+            def mk(respect, name=name, variant=variant, vt=vt, lst=lst, mp=mp):
+                def run(interp):
+                    ctx = interp.ctx
+                    from .eqmodel import close, close_axioms
+                    close_axioms(ctx)
+                    if name in ("Data3D", "ForceTorque3D", "OpticalSetup"):
+                        interp.contracts = dict(interp.contracts)
+                        interp.contracts[SPECS[name].cls + "._write"] = _block_write_contract
+                    sp, a, b, f = _eq_setup(interp, name, variant)
+                    items = b.fields[lst]
+                    if respect == "count+1":
+                        extra = SPECS[ITEM_LAYOUT[name, variant]].make(interp, "extra", (), [], **_item_kw(name, a))
+                        n0, at0 = items.n, items.at
+                        b.fields[lst] = VList(None, n0 + 1, lambda k: MixedElem(eq(zint(k), zint(n0)), extra, at0(k)) if conc(eq(zint(k), zint(n0))) is None else (extra if conc(eq(zint(k), zint(n0))) else at0(k)), label="longer")
+                        if mp:
+                            m0 = b.fields[mp]
+                            newch = z3.Const("extra_channel", I)
+                            if isinstance(m0, VList):
+                                b.fields[mp] = VList(None, n0 + 1, lambda k, m0=m0: If(zint(k) == zint(n0), newch, m0.at(k)))
+                            else:
+                                b.fields[mp] = VNd((n0 + 1,), m0.dt, lambda k, m0=m0: If(zint(k) == zint(n0), newch, m0.get(k)))
+                    elif respect == "count-1":
+                        ctx.assume(zint(items.n) >= 1)
+                        n0, at0 = items.n, items.at
+                        b.fields[lst] = VList(None, n0 - 1, at0, label="shorter")
+                        if mp:
+                            m0 = b.fields[mp]
+                            b.fields[mp] = VList(None, n0 - 1, m0.at) if isinstance(m0, VList) else VNd((n0 - 1,), m0.dt, m0.get)
+                    elif respect == "channel":
+                        j0 = z3.Const("changed_pos", I)
+                        ctx.assume(rng(0, j0, items.n))
+                        m0 = b.fields[mp]
+                        other = z3.Const("other_channel", I)
+                        old = m0.at(j0) if isinstance(m0, VList) else m0.get(j0)
+                        ctx.assume(other != old)
+                        b.fields[mp] = VList(None, m0.n, lambda k, m0=m0: If(zint(k) == j0, other, m0.at(k))) if isinstance(m0, VList) else VNd(m0.shape, m0.dt, lambda k, m0=m0: If(zint(k) == j0, other, m0.get(k)))
+                    elif respect == "label":
+                        j0 = z3.Const("changed_pos", I)
+                        ctx.assume(rng(0, j0, items.n))
+                        lab2 = sym_text(ctx, "other_label")
+                        at0 = items.at
+                        ctx.assume(Not(interp.str_eq(lab2, at0(j0).fields[LABEL_FIELD[name]])))
+
+                        def at1(k, at0=at0):
+                            e = at0(k)
+                            o2 = VObj(e.cls, e.epoch, e.label)
+                            o2.__dict__.update({a: v for a, v in e.__dict__.items() if a not in ("fields",)})
+                            o2.fields = dict(e.fields)
+                            old = e.fields[LABEL_FIELD[name]].seq
+                            c = eq(zint(k), j0)
+                            o2.fields[LABEL_FIELD[name]] = VStr(Seq(If(c, lab2.seq.n, old.n), lambda i, old=old, c=c: If(c, lab2.seq.get(i), old.get(i))))
+                            return o2
+                        b.fields[lst] = VList(None, items.n, at1, label="relabelled")
+                    elif respect == "sample":
+                        j0 = z3.Const("changed_pos", I)
+                        ctx.assume(rng(0, j0, items.n))
+                        fld = SAMPLE_FIELD[name]
+                        at0 = items.at
+                        probe = at0(j0).fields[fld]
+                        ix = [z3.Const(f"changed_ix{d}", I) for d in range(probe.ndim)]
+                        ctx.assume(And(*[rng(0, i, sdim) for i, sdim in zip(ix, probe.shape)]))
+                        w2 = z3.Const("other_word", I)
+                        oldw = at0(j0).fields[fld].get(*ix)
+                        ctx.assume(And(Not(npmodel.isnan(w2)), Not(npmodel.isnan(oldw)), Not(close(w2, oldw)), w2 != oldw))
+
+                        def at1(k, at0=at0):
+                            e = at0(k)
+                            o2 = VObj(e.cls, e.epoch, e.label)
+                            o2.__dict__.update({a: v for a, v in e.__dict__.items() if a not in ("fields",)})
+                            o2.fields = dict(e.fields)
+                            src = e.fields[fld]
+                            c = eq(zint(k), j0)
+                            o2.fields[fld] = VNd(src.shape, src.dt, lambda *i, src=src, c=c: If(And(c, *[eq(a, b_) for a, b_ in zip(i, ix)]), w2, src.get(*i)))
+                            return o2
+                        b.fields[lst] = VList(None, items.n, at1, label="resampled")
+                    elif respect.startswith("scalar:"):
+                        fld = respect.split(":")[1]
+                        other = z3.Const("other_" + fld, I)
+                        ctx.assume(other != b.fields[fld])
+                        b.fields[fld] = other
+                    else:
+                        raise OutOfReach(respect)
+                    for desc, x, y in (("a==b", a, b), ("b==a", b, a)):
+                        r = _eval_eq(interp, f"C14.{name}{vt}.differs[{respect}].{desc}", x, y)
+                        if r is not None:
+                            ctx.oblige(f"C14.{name}{vt}.differs[{respect}].{desc}_is_false", Not(r), kind="C14")
+                return run
+            respects = ["count-1"] + (["channel"] if mp else []) + (["label"] if name in LABEL_FIELD else []) + (["sample"] if name in SAMPLE_FIELD else []) + ["scalar:" + f for f in SCALAR_FIELDS[name]]
+            for r in respects:
+                out.append(Task(f"C14.{name}{vt}.differs[{r}]", SPECS[name].cls + ".__eq__", ["C14"], mk(r), kind="obj"))
+    # items: one stored word / character / count changed
+    for name in EQ_ITEMS:
+        variant = "full" if name == "BTSCamera" else SPECS[name].variants[0]
+
+        def t_item(interp, name=name, variant=variant):
+            ctx = interp.ctx
+            from .eqmodel import close, close_axioms
+            close_axioms(ctx)
+            sp, a, _b, f = _eq_setup(interp, name, variant)
+            if f is None:
+                ctx.oblige(f"C14.{name}.has_value_equality", False, kind="C14")
+                return
+            for fld, val in list(a.fields.items()):
+                b = decoded(interp, name, a)
+                b.decoded = False
+                if isinstance(val, VNd) and val.fields is None and val.dt.kind in ("f4", "f8", "i4", "i2"):
+                    ix = [z3.Const(f"cix{d}_{fld}", I) for d in range(val.ndim)]
+                    ctx.assume(And(*[rng(0, i, sdim) for i, sdim in zip(ix, val.shape)]))
+                    if hasattr(a, "present"):
+                        ctx.assume(a.present(ix[0]))
+                    w2 = z3.Const("other_" + fld, I)
+                    oldw = val.get(*ix)
+                    if val.dt.kind in ("f4", "f8"):
+                        ctx.assume(And(Not(npmodel.isnan(w2)), Not(close(w2, oldw)), w2 != oldw))
+                    else:
+                        ctx.assume(w2 != oldw)
+                    b.fields[fld] = VNd(val.shape, val.dt, lambda *i, val=val, ix=ix, w2=w2: If(And(*[eq(x, y) for x, y in zip(i, ix)]), w2, val.get(*i)))
+                    what = f"{fld}_changed"
+                elif isinstance(val, VStr):
+                    lab2 = sym_text(ctx, "other_" + fld)
+                    ctx.assume(Not(interp.str_eq(lab2, val)))
+                    b.fields[fld] = lab2
+                    what = f"{fld}_changed"
+                else:
+                    continue
+                for desc, x, y in (("a==b", a, b), ("b==a", b, a)):
+                    r = _eval_eq(interp, f"C14.{name}.differs[{what}].{desc}", x, y)
+                    if r is not None:
+                        ctx.oblige(f"C14.{name}.differs[{what}].{desc}_is_false", Not(r), kind="C14")
+            if name == "Event":
+                b = decoded(interp, name, a)
+                b.decoded = False
+                v = a.fields["values"]
+                ctx.assume(zint(v.shape[0]) >= 1)
+                b.fields["values"] = VNd((v.shape[0] - 1,), v.dt, v.get)
+                for desc, x, y in (("a==b", a, b), ("b==a", b, a)):
+                    r = _eval_eq(interp, f"C14.Event.differs[one_value_fewer].{desc}", x, y)
+                    if r is not None:
+                        ctx.oblige(f"C14.Event.differs[one_value_fewer].{desc}_is_false", Not(r), kind="C14")
+        out.append(Task(f"C14.{name}.differs", SPECS[name].cls + ".__eq__", ["C14"], t_item, kind="obj"))
+    return out
+
+
+LABEL_FIELD = {"EMG": "label", "Events": "label", "PlatformsCalibration": "label"}
+SAMPLE_FIELD = {"EMG": "data", "Events": "values", "PlatformsData": "force", "PlatformsCalibration": "position", "Calibration": "translation_vector"}
+ITEM_LAYOUT = {("EMG", None): "EMGTrack", ("Events", None): "Event", ("PlatformsData", None): "PlatformData", ("PlatformsCalibration", None): "PlatformInfo",
+               ("Calibration", "Seelab1"): "SeelabCamera", ("Calibration", "BTS"): "BTSCamera", ("Data3D", "byTrack"): "MarkerTrack",
+               ("Data3D", "byTrackWithoutLinks"): "MarkerTrack", ("ForceTorque3D", None): "ForceTorqueTrack", ("OpticalSetup", None): "OpticalChannel"}
+
+
+def _item_kw(name, a):
+    if name in ("EMG",):
+        return dict(N=a.fields["nSamples"])
+    if name in ("Data3D", "ForceTorque3D"):
+        return dict(N=a.fields["nFrames"])
+    if name == "PlatformsData":
+        return dict(N=a.fields["n_frames"])
+    return {}
+
+
 def all_tasks():
-    return c18_tasks() + c16_tasks() + c20_tasks() + c19_tasks()
+    return c18_tasks() + c16_tasks() + c20_tasks() + c19_tasks() + c15_tasks() + c14_tasks()
 
 
 def property_config(tasks, select):
@@ -506,4 +937,8 @@ def property_config(tasks, select):
     P["C16"] = dict(decisive=select(tasks, ("C16.",)), chain=[], harness=dict(extra=[("harness.obj_checks", "run_c16")]))
     P["C20"] = dict(decisive=select(tasks, ("C20.", "C16.Data3D.assign", "C16.ForceTorque3D.assign")), chain=[], harness=dict(extra=[("harness.obj_checks", "run_c20")]))
     P["C19"] = dict(decisive=select(tasks, ("C19.",)), chain=[], harness=dict(extra=[("harness.obj_checks", "run_c19")]))
+    P["C14"] = dict(decisive=select(tasks, ("C14.",)), chain=select(tasks, ("W.Data3D", "W.ForceTorque3D", "W.OpticalSetup", "RT.Data3D", "RT.ForceTorque3D", "RT.OpticalSetup")),
+                    harness=dict(extra=[("harness.obj_checks2", "run_c14")]))
+    P["C15"] = dict(decisive=select(tasks, ("C15.", "B.EMG", "B.PlatformsData", "B.PlatformsCalibration", "W.EMG", "W.PlatformsData", "W.PlatformsCalibration")), chain=[],
+                    harness=dict(extra=[("harness.obj_checks2", "run_c15")]))
     return P
